@@ -202,6 +202,110 @@ async def setup_tcpclient(p: dict) -> Setup:
     return s
 
 
+class MemDgramTransport:
+    """built lazily (needs the library's ABC): in-memory connected datagram transport with the close bookkeeping of
+    c15_env.MemTransport (close_steps suspensions of a graceful close, scripted close error, `closed` flag)"""
+
+
+def _mem_dgram(be, close_steps: int, close_error):
+    from easynetwork.lowlevel.api_async.transports import abc as tr_abc
+    from vlib import c15_tcp
+
+    class _T(tr_abc.AsyncDatagramTransport):
+        def __init__(self) -> None:
+            super().__init__()
+            self.closing = False
+            self.closed = False
+            self.aclose_calls = 0
+            self._extra = c15_tcp.inet_extra((c15_tcp.HOST, c15_tcp.CLIENT_PORT0), (c15_tcp.HOST, 9))
+            self.gate: asyncio.Event | None = None
+
+        def backend(self):
+            return be
+
+        def is_closing(self) -> bool:
+            return self.closing
+
+        @property
+        def extra_attributes(self):
+            return self._extra
+
+        async def aclose(self) -> None:
+            self.aclose_calls += 1
+            first = not self.closing
+            self.closing = True
+            try:
+                if first:
+                    for _ in range(close_steps):
+                        await asyncio.sleep(0)
+            finally:
+                self.closed = True
+            if first and close_error is not None:
+                raise close_error
+
+        async def recv(self) -> bytes:
+            await asyncio.get_running_loop().create_future()
+            raise AssertionError
+
+        async def send(self, data) -> None:
+            if self.closing:
+                raise OSError(9, "closed")
+            if self.gate is not None:
+                await self.gate.wait()     # writer flow control: the socket's send buffer is full
+            await asyncio.sleep(0)
+
+    return _T()
+
+
+async def setup_udpclient(p: dict) -> Setup:
+    """AsyncUDPNetworkClient over an in-memory datagram transport (public `backend=` argument); `busy`: a send_packet() of
+    another task is parked in the transport's send() and holds the client's send lock while the close runs"""
+    from easynetwork.clients.async_udp import AsyncUDPNetworkClient
+    from easynetwork.protocol import DatagramProtocol
+    from easynetwork.serializers.line import StringLineSerializer
+    from vlib import c15_tcp
+
+    s = Setup()
+    ip = p.get("inner") or {}
+    c15_tcp._quiet()
+
+    class _Be(c15_tcp.MemBackend):
+        async def create_udp_endpoint(self, remote_host, remote_port, *, local_address=None, family=0):
+            await self.coro_yield()
+            return t
+
+    be = _Be()
+    t = _mem_dgram(be, ip.get("steps", 0), err_of(ip))
+    client = AsyncUDPNetworkClient((c15_tcp.HOST, 9), DatagramProtocol(StringLineSerializer("LF", encoding="ascii")), backend=be)
+    await client.wait_connected()
+    s.inners = {"t": t}
+    s.outer = client
+
+    async def scoped_op(inj) -> None:
+        with be.open_cancel_scope() as scope:
+            inj.scope = scope
+            await client.aclose()
+
+    s.scoped_op = scoped_op  # type: ignore[attr-defined]
+    if p.get("busy"):
+        gate = t.gate = asyncio.Event()
+
+        async def sender():
+            with contextlib.suppress(Exception):
+                await client.send_packet("x")
+
+        s.bg.append(asyncio.ensure_future(sender()))
+        for _ in range(4):
+            await asyncio.sleep(0)
+        asyncio.get_running_loop().call_later(10.0, gate.set)
+
+        async def release():
+            await asyncio.sleep(20.0)
+
+        s.after_first = release
+    return s
+
+
 async def setup_sockadapter(p: dict) -> Setup:
     """the real AsyncioTransportStreamSocketAdapter (backend.wrap_stream_socket) over a socketpair: `aclose()` =
     transport.close() + wait for connection_lost.  "closed" = the asyncio transport is closing (close requested)."""
@@ -241,12 +345,13 @@ async def setup_tcpconnect(p: dict) -> Setup:
 
 
 SETUPS = {"stapled": setup_stapled, "endpoint": setup_endpoint, "tls": setup_tls, "tlswrap": setup_tlswrap,
-          "tcpclient": setup_tcpclient, "sockadapter": setup_sockadapter, "tcpconnect": setup_tcpconnect}
+          "tcpclient": setup_tcpclient, "sockadapter": setup_sockadapter, "tcpconnect": setup_tcpconnect,
+          "udpclient": setup_udpclient}
 
 
 def innermost_lib(chain: tuple[str, ...]) -> str:
     """innermost coroutine of the chain that belongs to EasyNetwork (not to the harness transports / asyncio)"""
-    own = ("MemTransport.", "PipeEnd.", "sleep", "__sleep0", "Event.wait", "TLSPeer.", "parked_send", "Lock.", "Condition.",
+    own = ("MemTransport.", "PipeEnd.", "sleep", "__sleep0", "Event.wait", "TLSPeer.", "parked_send", "Lock.", "Condition.", "_mem_dgram.",
            "setup_", "run_case", "run_srvclient", "setup.", "SlowBackend.")
     for q in reversed(chain):
         if not q.startswith(own) and not q.startswith("setup_"):
@@ -266,7 +371,11 @@ def run_case(case: dict) -> tuple[list[str], dict]:
     async def main() -> None:
         loop = asyncio.get_running_loop()
         s = await SETUPS[case["path"]](p)
-        t = loop.create_task(s.op())
+        if p.get("via") == "scope" and getattr(s, "scoped_op", None) is not None:
+            # the cancellation is requested through a cancel scope around the close call (move_on_after / timeout idiom)
+            t = loop.create_task(s.scoped_op(inj))
+        else:
+            t = loop.create_task(s.op())
         inj.arm(t)
         await asyncio.wait({t})
         if t.cancelled():
